@@ -52,6 +52,23 @@ Example C09_forget_retry :
   | None => False
   end.
 Proof. exact ex_retry. Qed.
+(* readdirplus: an entry that is delivered is a lookup; an entry that does not fit is a lookup followed at once
+   (no yield point before the write lock) by forget_one(1) on the same object: both are thread operations of the
+   model ([CRdp]), so every theorem above covers them; [ldone] counts the lookups applied (returned, delivered or
+   about to be undone), [fnom]/[fdec] include the undo forgets *)
+Example C09_readdirplus_undo_race :
+  match run_sched (cinit 1 ex_rdp_progs) ex_rdp_sched with
+  | Some (tr, s) => tr = [0; 1; 4; 5; 9; 0; 3; 5; 9] /\ rc_now s = 0 /\ cur s = None /\ ngen s = 2%nat /\
+                    ldone s = 1 /\ fnom s = 2 /\ fdec s = 2
+  | None => False
+  end.
+Proof. exact ex_rdp. Qed.
+Example C09_readdirplus_deliver_race :
+  match run_sched (cinit 1 ex_rdp2_progs) [0; 1; 1; 1; 0; 0]%nat with
+  | Some (tr, s) => tr = [0; 4; 5; 9; 3; 9] /\ rc_now s = 1 /\ ngen s = 2%nat /\ ldone s = 1 /\ fdec s = 1
+  | None => False
+  end.
+Proof. exact ex_rdp2. Qed.
 Example C09_init_body : forall r0 progs, Body (cinit r0 progs).
 Proof. exact cinit_body. Qed.
 
